@@ -6,7 +6,7 @@
 EXTENDS Describe, Families, Json
 
 CONSTANT FAMILY
-Cases == CASE FAMILY = "G1a_1" -> G1a_1(0) [] FAMILY = "G1c" -> G1c(0) [] FAMILY = "G8" -> G8(0) [] FAMILY = "G2p_2" -> G2p_2(0)
+Cases == CASE FAMILY = "G1a_1" -> G1a_1(0) [] FAMILY = "G1a_2" -> G1a_2(0) [] FAMILY = "G1c" -> G1c(0) [] FAMILY = "G8" -> G8(0) [] FAMILY = "G2p_2" -> G2p_2(0)
 
 VARIABLES c, id
 Init == c \in Cases /\ id \in Ids(Register(ProgOf(c), c.roots).reg)
